@@ -5,26 +5,35 @@ From KV Require Import Base.IEEE Base.Outcome Base.Num C06.Model C06.Dur C06.Pro
 Import ListNotations.
 Local Open Scope Z_scope.
 
-Theorem rate_in_force_guarded :
-  forall (fo : Z -> Z -> Z) (sr ibs : Z) (main : list eshape) (h : list op),
-       no_race fo (init_state sr ibs main) h = true -> all_in_force fo (init_state sr ibs main) h.
-Proof. exact @rate_in_force_guarded_l. Qed.
-
 Theorem rate_in_force_all_histories :
-  forall (fo : Z -> Z -> Z) (sr ibs : Z) (main : list eshape) (h : list op) (n : Z),
-       let s := fst (run fo (init_state sr ibs main) h) in
-       let s' := fst (step fo s (A_callback n)) in
-       Inv s /\
-       Forall (ev_fine (s_rate s') (s_rate s') (flat_map raced_ids (s_subs s' ++ s_sends s')))
-         (snd (step fo s (A_callback n))).
+  forall (fo : Z -> Z -> Z) (sr ibs : Z) (main : list eshape) (h : list op),
+       all_in_force fo (init_state sr ibs main) h.
 Proof. exact @rate_in_force_all_histories_l. Qed.
+
+Theorem rate_invariant_all_histories :
+  forall (fo : Z -> Z -> Z) (sr ibs : Z) (main : list eshape) (h : list op),
+       Inv (fst (run fo (init_state sr ibs main) h)).
+Proof. exact @rate_invariant_all_histories_l. Qed.
 
 Theorem change_reaches_tracks_in_the_arenas :
   forall (fo : Z -> Z -> Z) (s : state) (r : Z),
        let s' := fst (step fo s (A_change r)) in
        s_rate s' = r /\
-       s_dtr s' = r /\ fa (eff_fresh r) (s_main s') /\ fa (arena_fresh r) (s_subs s' ++ s_sends s').
+       s_dtr s' = r /\
+       s_mix s' = r /\ fa (eff_fresh r) (s_main s') /\ fa (arena_fresh r) (s_subs s' ++ s_sends s').
 Proof. exact @change_reaches_arena_l. Qed.
+
+Theorem pickup_syncs_queued_tracks :
+  forall (fo : Z -> Z -> Z) (s : state) (n : Z),
+       fa coherent (all_tracks s) ->
+       let s' := fst (step fo s (A_callback n)) in
+       fa (live (s_mix s)) (s_subs s' ++ s_sends s') /\ s_subq s' = [] /\ s_sendq s' = [].
+Proof. exact @pickup_syncs_l. Qed.
+
+Theorem start_after_change :
+  forall (rs : bool) (r : Z) (t : track),
+       start_track rs true r t = start_track rs false r (change_track r t).
+Proof. exact @start_after_change_l. Qed.
 
 Theorem track_added_after_change_knows_rate :
   forall (fo : Z -> Z -> Z) (s : state) (slot : Z) (sh : tshape),
@@ -32,52 +41,54 @@ Theorem track_added_after_change_knows_rate :
        let s1 := fst (step fo s (G_load slot DSub sh)) in
        let s2 := fst (step fo s1 (G_enqueue slot)) in
        exists t : track,
-         s_subq s2 = s_subq s ++ [t] /\
-         trk_inv (s_rate s) t = true /\ trk_raced t = false /\ s_rate s2 = s_rate s.
+         s_subq s2 = s_subq s ++ [t] /\ live (s_rate s) t = true /\ s_rate s2 = s_rate s.
 Proof. exact @add_after_change_l. Qed.
 
-Theorem stale_rate_refuted :
-  exists h : list op, no_race fo0 init0 h = false /\ ~ all_in_force fo0 init0 h.
-Proof. exact @stale_rate_refuted_l. Qed.
+Theorem f14_regression :
+  (all_in_force fo0 init0 h_add_change_cb /\ snd (run fo0 init0 h_add_change_cb) = [(0, 2000, 2000, 4)]) /\
+       (all_in_force fo0 init0 h_load_change_enq_cb /\
+        snd (run fo0 init0 h_load_change_enq_cb) = [(0, 2000, 2000, 4)]) /\
+       all_in_force fo0 init0 h_nested /\
+       all_in_force fo0 init0 h_nested_queued /\
+       all_in_force fo0 init0 h_send /\
+       snd (run fo0 (init_state 1000 8 []) h_delay) = [(0, 2000, 2000, 6); (0, 2000, 2000, 2)] /\
+       (~ all_in_force_unrepaired fo0 init0 h_add_change_cb /\
+        snd (run_unrepaired fo0 init0 h_add_change_cb) = [(0, 1000, 2000, 4)]) /\
+       (~ all_in_force_unrepaired fo0 init0 h_load_change_enq_cb /\
+        snd (run_unrepaired fo0 init0 h_load_change_enq_cb) = [(0, 1000, 2000, 4)]) /\
+       ~ all_in_force_unrepaired fo0 init0 h_nested /\
+       ~ all_in_force_unrepaired fo0 init0 h_nested_queued /\
+       ~ all_in_force_unrepaired fo0 init0 h_send /\
+       snd (run_unrepaired fo0 (init_state 1000 8 []) h_delay) =
+       [(0, 1000, 2000, 3); (0, 1000, 2000, 3); (0, 1000, 2000, 2)].
+Proof. exact f14_regression_l. Qed.
 
-Theorem stale_rate_racy_refuted :
-  exists h : list op, no_race fo0 init0 h = false /\ ~ all_in_force fo0 init0 h.
-Proof. exact @stale_rate_racy_refuted_l. Qed.
-
-Theorem stale_rate_witness_add_change_callback :
-  no_race fo0 init0 h_add_change_cb = false /\
-       all_in_forceb fo0 init0 h_add_change_cb = false /\
-       snd (run fo0 init0 h_add_change_cb) = [(0, 1000, 2000, 4)].
-Proof. exact @witness_add_change_cb. Qed.
-
-Theorem stale_rate_witness_load_change_enqueue_callback :
-  no_race fo0 init0 h_load_change_enq_cb = false /\
-       all_in_forceb fo0 init0 h_load_change_enq_cb = false /\
-       snd (run fo0 init0 h_load_change_enq_cb) = [(0, 1000, 2000, 4)].
-Proof. exact @witness_load_change_enq_cb. Qed.
-
-Theorem rate_in_force_witness_good_orders :
-  no_race fo0 init0 h_add_cb_change_cb = true /\
-       all_in_forceb fo0 init0 h_add_cb_change_cb = true /\
-       snd (run fo0 init0 h_add_cb_change_cb) = [(0, 1000, 1000, 4); (0, 2000, 2000, 4)] /\
-       no_race fo0 init0 h_change_add_cb = true /\
-       all_in_forceb fo0 init0 h_change_add_cb = true /\
-       snd (run fo0 init0 h_change_add_cb) = [(0, 2000, 2000, 4)].
-Proof. exact @witness_good_orders. Qed.
-
-Theorem stale_rate_general :
+Theorem unrepaired_pickup_stale_general :
   forall (fo : Z -> Z -> Z) (sr ibs : Z) (main : list eshape) (tid : Z) (effs : list eshape) 
          (i : Z) (fb : list eshape) (r n : Z),
        r <> sr ->
        0 < n ->
        In (SEff i KProbe fb) effs ->
        ~
-       all_in_force fo (init_state sr ibs main)
+       all_in_force_unrepaired fo (init_state sr ibs main)
          [G_load 0 DSub (tid, effs); G_enqueue 0; A_change r; A_callback n] /\
        ~
-       all_in_force fo (init_state sr ibs main)
+       all_in_force_unrepaired fo (init_state sr ibs main)
          [G_load 0 DSub (tid, effs); A_change r; G_enqueue 0; A_callback n].
-Proof. exact @stale_rate_general_l. Qed.
+Proof. exact @unrepaired_pickup_stale_general_l. Qed.
+
+Theorem rate_in_force_witness_orders :
+  all_in_forceb fo0 init0 h_add_cb_change_cb = true /\
+       snd (run fo0 init0 h_add_cb_change_cb) = [(0, 1000, 1000, 4); (0, 2000, 2000, 4)] /\
+       all_in_forceb fo0 init0 h_change_add_cb = true /\
+       snd (run fo0 init0 h_change_add_cb) = [(0, 2000, 2000, 4)].
+Proof. exact @witness_good_orders. Qed.
+
+Theorem rate_there_and_back_tells_nobody :
+  all_in_forceb fo0 init0 h_there_and_back = true /\
+       snd (run fo0 init0 h_there_and_back) = [(0, 1000, 1000, 4)] /\
+       s_subs (fst (run fo0 init0 h_there_and_back)) = [Trk 1 1000 [Eff 0 KProbe [(ByInit, 1000)] []] [] []].
+Proof. exact @witness_there_and_back. Qed.
 
 Theorem sound_position_scaling :
   forall (fuel : nat) (s : Z) (rho : Q) (segs : list segment),
